@@ -178,7 +178,7 @@ def solve_d(I, t, p, branch):
     """a density with super(d, t)[0] = p on the liquid-like ('l': scanning from 850 kg/m3 downwards) or vapour-like
     ('v': from 1 kg/m3 upwards) single-phase branch, by bracketing + bisection on the real code; None if the pressure
     stops being monotone along the scan before p is reached (spinodal) or p is not reached at all"""
-    f = lambda d: float(I.super(d, t)[0]) - p
+    f = lambda d: float(need(I, 'super', d, t)[0]) - p
     if branch == 'l':
         cur, step, stop = 850.0, 0.985, 100.0
     else:
@@ -204,11 +204,33 @@ def solve_d(I, t, p, branch):
 
 def sat_densities(I, t):
     """(rho_vapour, rho_liquid) at 350 <= t < tcritical from the real super/sat"""
-    ps = float(I.sat(t))
+    ps = float(need(I, 'sat', t))
     return solve_d(I, t, ps, 'v'), solve_d(I, t, ps, 'l')
 
 
 # ------------------------------------------------------------------ the oracle: one function per clause, on one case
+
+class NoValue(Exception):
+    """a routine of the real code returned None / raised at a state where the clause needs its value"""
+    def __init__(self, fn, args, why):
+        Exception.__init__(self, '%s%r: %s' % (fn, tuple(args), why))
+        self.fn, self.args_, self.why = fn, tuple(args), why
+
+
+def need(mod, fn, *args):
+    """the value of a routine of the real code; NoValue (-> a violation, not a crash) when it has none"""
+    try:
+        with warnings.catch_warnings():
+            warnings.simplefilter('ignore')
+            r = getattr(mod, fn)(*args)
+    except (ZeroDivisionError, ValueError, OverflowError, TypeError) as e:
+        raise NoValue(fn, args, 'raises ' + type(e).__name__)
+    if r is None or (isinstance(r, tuple) and any(x is None for x in r)):
+        raise NoValue(fn, args, 'returns %r' % (r,))
+    if isinstance(r, tuple) and any(isinstance(x, complex) for x in r):
+        raise NoValue(fn, args, 'returns a complex number')
+    return r
+
 
 def V(key, what, case):
     return dict(key=key, what=what, case=case)
@@ -248,19 +270,19 @@ def o_b23(I, c):
     out = []
     if 't' in c:
         t = c['t']
-        tt = I.b23t(I.b23p(t))
+        tt = need(I, 'b23t', need(I, 'b23p', t))
         if not abs(tt - t) <= TOL_INV * (t + T0):
             out.append(V('b23-inverse:t', 'b23t(b23p(%r)) = %r' % (t, float(tt)), c))
     else:
         p = c['p']
-        pp = I.b23p(I.b23t(p))
+        pp = need(I, 'b23p', need(I, 'b23t', p))
         if not abs(pp - p) <= TOL_INV * p:
             out.append(V('b23-inverse:p', 'b23p(b23t(%r)) = %r' % (p, float(pp)), c))
     return out
 
 
-def _vh(f, t, p):
-    d, u = f(t, p)
+def _vh(I, fn, t, p):
+    d, u = need(I, fn, t, p)
     v = 1 / d
     return v, u + p * v
 
@@ -270,21 +292,21 @@ def o_potential_fd(I, c):
     Helmholtz) by central differences of the values the real code returns"""
     r = c['region']
     if r in (1, 2):
-        f = I.cowat if r == 1 else I.supst
+        f = 'cowat' if r == 1 else 'supst'
         t, p = c['t'], c['p']
         dp, dt = max(p * 1e-4, 1e-3), 0.01
-        v, h = _vh(f, t, p)
-        hp = (_vh(f, t, p + dp)[1] - _vh(f, t, p - dp)[1]) / (2 * dp)
-        vT = (_vh(f, t + dt, p)[0] - _vh(f, t - dt, p)[0]) / (2 * dt)
+        v, h = _vh(I, f, t, p)
+        hp = (_vh(I, f, t, p + dp)[1] - _vh(I, f, t, p - dp)[1]) / (2 * dp)
+        vT = (_vh(I, f, t + dt, p)[0] - _vh(I, f, t - dt, p)[0]) / (2 * dt)
         T = t + T0
         res = abs(hp - (v - T * vT)) / (abs(v) + abs(T * vT))
         what = '(dh/dp)_T = %r but v - T (dv/dT)_p = %r' % (float(hp), float(v - T * vT))
     else:
         d, t = c['d'], c['t']
         dd, dt = d * 1e-4, 0.01
-        p, u = I.super(d, t)
-        ud = (I.super(d + dd, t)[1] - I.super(d - dd, t)[1]) / (2 * dd)
-        pT = (I.super(d, t + dt)[0] - I.super(d, t - dt)[0]) / (2 * dt)
+        p, u = need(I, 'super', d, t)
+        ud = (need(I, 'super', d + dd, t)[1] - need(I, 'super', d - dd, t)[1]) / (2 * dd)
+        pT = (need(I, 'super', d, t + dt)[0] - need(I, 'super', d, t - dt)[0]) / (2 * dt)
         T = t + T0
         rhs = (p - T * pT) / (d * d)
         res = abs(ud - rhs) / ((abs(p) + abs(T * pT)) / (d * d))
@@ -309,7 +331,7 @@ def o_potential_tree(I, CD, c):
 
             def vh(t, p):
                 rr = CD(fn, t, p)
-                if rr[0] != 'pair': raise ArithmeticError('no value')
+                if rr[0] != 'pair': raise NoValue(fn, (float(t), float(p)), 'has no value (translated tree)')
                 v = 1 / rr[1]
                 return v, rr[2] + p * v, rr
             dp, dt = p * Decimal('1e-20'), Decimal('1e-18')
@@ -319,7 +341,7 @@ def o_potential_tree(I, CD, c):
             vT = (vh(t + dt, p)[0] - vh(t - dt, p)[0]) / (2 * dt)
             T = t + TK
             res = abs(hp - (v - T * vT)) / (abs(v) + abs(T * vT))
-            real = (I.cowat if r == 1 else I.supst)(c['t'], c['p'])
+            real = need(I, 'cowat' if r == 1 else 'supst', c['t'], c['p'])
             scale_u = abs(rr[2]) + Decimal(461.526) * T
         else:
             d, t = Decimal(c['d']), Decimal(c['t'])
@@ -333,7 +355,7 @@ def o_potential_tree(I, CD, c):
             pT = (pu(d, t + dt)[0] - pu(d, t - dt)[0]) / (2 * dt)
             T = t + TK
             res = abs(ud - (p - T * pT) / (d * d)) / ((abs(p) + abs(T * pT)) / (d * d))
-            real = I.super(c['d'], c['t'])
+            real = need(I, 'super', c['d'], c['t'])
             scale_u = abs(rr[2]) + Decimal(461.526) * T
         if not res <= Decimal(TOL_ID_DEC):
             out.append(V('potential-identity-exact:r%d' % r, 'region %d at %s: the two derivative sums are not the partial derivatives '
@@ -349,13 +371,13 @@ def o_potential_tree(I, CD, c):
 def o_monotone(I, c):
     r = c['region']
     if r in (1, 2):
-        f = I.cowat if r == 1 else I.supst
-        d1, d2 = f(c['t'], c['p1'])[0], f(c['t'], c['p2'])[0]
+        f = 'cowat' if r == 1 else 'supst'
+        d1, d2 = need(I, f, c['t'], c['p1'])[0], need(I, f, c['t'], c['p2'])[0]
         if not d2 > d1:
             return [V('density-not-monotone:r%d' % r, 'region %d, t=%r: density %r at p=%r but %r at the higher p=%r' % (
                 r, c['t'], float(d1), c['p1'], float(d2), c['p2']), c)]
     else:
-        p1, p2 = I.super(c['d1'], c['t'])[0], I.super(c['d2'], c['t'])[0]
+        p1, p2 = need(I, 'super', c['d1'], c['t'])[0], need(I, 'super', c['d2'], c['t'])[0]
         if not p2 > p1:
             return [V('density-not-monotone:r3', 'region 3, t=%r: pressure %r at density %r but %r at the higher density %r' % (
                 c['t'], float(p1), c['d1'], float(p2), c['d2']), c)]
@@ -363,7 +385,7 @@ def o_monotone(I, c):
 
 
 def o_visc(I, c):
-    mu = I.visc(c['d'], c['t'])
+    mu = need(I, 'visc', c['d'], c['t'])
     if not (mu > 0 and math.isfinite(mu)):
         return [V('viscosity-not-positive', 'visc(%r, %r) = %r' % (c['d'], c['t'], float(mu)), c)]
     return []
@@ -373,16 +395,14 @@ def o_boundary(I, c):
     """agreement of (v, h) across the 1/3 boundary (350 degC) and the 2/3 boundary (B23 line)"""
     t, p = c['t'], c['p']
     if c['which'] == '13':
-        a = I.cowat(t, p)
+        a = need(I, 'cowat', t, p)
         d3 = solve_d(I, t, p, 'l')
     else:
-        a = I.supst(t, p)
+        a = need(I, 'supst', t, p)
         d3 = solve_d(I, t, p, 'v')
-    if a is None:
-        return [V('boundary-none:' + c['which'], 'no value on the region boundary at t=%r p=%r' % (t, p), c)]
     if d3 is None:
         return [V('boundary-no-density:' + c['which'], 'no region-3 density reproduces p=%r at t=%r' % (p, t), c)]
-    u3 = I.super(d3, t)[1]
+    u3 = need(I, 'super', d3, t)[1]
     va, ha = 1 / a[0], a[1] + p / a[0]
     v3, h3 = 1 / d3, u3 + p / d3
     if not (abs(va - v3) <= TOL_V * va and abs(ha - h3) <= TOL_H):
@@ -459,11 +479,11 @@ def gen_correspondence(I, rng, n):
             out += [('cowat', (t, p)), ('supst', (t, p)), ('region', (t, p)), ('tsat', (p,)), ('b23t', (p,))]
     # straddling the boundary curves
     for t in grid(0.01, 350., 25):
-        ps = float(I.sat(t))
+        ps = ref_psat(t)
         for p in edge_values(ps) + [ps * (1 - 1e-6), ps * (1 + 1e-6)]:
             out += [('region', (t, p)), ('cowat', (t, p)), ('supst', (t, p))]
     for t in grid(350., 590., 25):
-        pb = float(I.b23p(t))
+        pb = ref_b23p(t)
         for p in edge_values(pb) + [pb * (1 - 1e-6), pb * (1 + 1e-6)]:
             out += [('region', (t, p)), ('supst', (t, p))]
     for _ in range(n):
@@ -518,8 +538,8 @@ def region3_state(I, rng, satd):
     for _ in range(200):
         t = rng.choice([rng.uniform(350.0, 590.0), rng.uniform(350.0, 380.0), rng.uniform(350.0, float(I.tcritical))])
         d = rng.uniform(90.0, 770.0)
-        p = float(I.super(d, t)[0])
-        if not (float(I.b23p(t)) < p <= 100e6): continue
+        p = float(need(I, 'super', d, t)[0])
+        if not (float(need(I, 'b23p', t)) < p <= 100e6): continue
         if t < I.tcritical:
             key = math.floor(t * 10) / 10        # the dome at a lower temperature contains the dome at t
             tl = min(key, float(I.tcritical) - 1e-3)
@@ -627,7 +647,11 @@ def oracle(ctx, I, res, rng, scale=1.0):
 
     def apply(name, c, fn=None):
         c = dict(c, clause=name)
-        r = (fn or CLAUSES[name])(I, c)
+        try:
+            r = (fn or CLAUSES[name])(I, c)
+        except NoValue as e:
+            r = [V('no-value:%s:%s' % (name, e.fn), '%s %s at a state where clause %s needs its value (%s)' % (
+                '%s%r' % (e.fn, e.args_), e.why, name, {k: v for k, v in c.items() if k != 'clause'}), c)]
         res.evaluations += 1
         res.count('oracle:' + name)
         if r == 'band':
@@ -646,12 +670,16 @@ def oracle(ctx, I, res, rng, scale=1.0):
     for p in ps:
         apply('tsat_sat', {'p': p})
     # probe below the property's temperature range (not an oracle clause): sat accepts 0 <= t
-    lowp = I.sat(0.0)
-    if lowp is not None and I.tsat(lowp) is None:
+    try:
+        lowp = I.sat(0.0)
+        low_none = lowp is not None and I.tsat(lowp) is None
+    except Exception:
+        low_none = False
+    if low_none:
         res.count('observation: tsat(sat(0.0)) is None (t = 0.0 is accepted by sat but below the 0.01 degC of the property)')
     for t in grid(350., 590., n(300, 10000)) + [rng.uniform(350., 590.) for _ in range(n(100, 3000))]:
         apply('b23', {'t': t})
-    p0, p1 = float(I.b23p(350.)), float(I.b23p(590.))
+    p0, p1 = ref_b23p(350.), ref_b23p(590.)
     for p in grid(p0, p1, n(300, 10000)) + [rng.uniform(p0, p1) for _ in range(n(100, 3000))]:
         apply('b23', {'p': p})
 
@@ -680,7 +708,12 @@ def oracle(ctx, I, res, rng, scale=1.0):
         p = max(p, 1.0)
         states.append({'region': 2, 't': t, 'p': p})
         # region 3
-        s = region3_state(I, rng, satd)
+        try:
+            s = region3_state(I, rng, satd)
+        except NoValue as e:
+            s = None
+            res.violations.append(V('no-value:region3-state:%s' % e.fn, '%s%r %s while looking for a single-phase state of region 3' % (
+                e.fn, e.args_, e.why), {'clause': 'need', 'fn': e.fn, 'args': list(e.args_)}))
         if s: states.append({'region': 3, 'd': s[0], 't': s[1]})
     for c in states:
         res.count('state:region%d' % c['region'])
@@ -700,8 +733,11 @@ def oracle(ctx, I, res, rng, scale=1.0):
         if r == 3:
             d = c['d']
         else:
-            d = float((I.cowat if r == 1 else I.supst)(c['t'], c['p'])[0])
-        apply('visc', {'d': d, 't': c['t']})
+            try:
+                d = float(need(I, 'cowat' if r == 1 else 'supst', c['t'], c['p'])[0])
+            except NoValue:
+                d = None          # already reported by the potential clauses
+        if d is not None: apply('visc', {'d': d, 't': c['t']})
         # monotone density: a second state of the same region at the same temperature
         if r == 1:
             psat = ref_psat(c['t']) * (1 + 1e-9)
@@ -719,7 +755,10 @@ def oracle(ctx, I, res, rng, scale=1.0):
             d2 = d * (1 + rng.choice([1, -1]) * 10 ** rng.uniform(-4, -1.5))
             lo, hi = sorted([d, d2])
             # both in the single-phase part: the second one must pass the same test as the first
-            ok = float(I.b23p(t)) < float(I.super(d2, t)[0]) <= 100e6
+            try:
+                ok = float(need(I, 'b23p', t)) < float(need(I, 'super', d2, t)[0]) <= 100e6
+            except NoValue:
+                ok = False
             if ok and t < tc:
                 dv, dl = satd[math.floor(t * 10) / 10]
                 ok = not (dv * 0.97 < d2 < dl * 1.03) and ((d2 > dl) == (d > dl))
@@ -786,11 +825,16 @@ def replay(ctx, payload):
     name = c.get('clause')
     if not name:
         return False, 'replay file names what no longer checks: %s' % payload.get('broken')
-    if name == 'potential_tree':
-        MI, _ = thermo.modules(core.REPO)
-        r = o_potential_tree(I, thermo.Compiled(MI, thermo.DecimalBackend()), c)
-    else:
-        r = CLAUSES[name](I, c)
+    try:
+        if name == 'need':
+            need(I, c['fn'], *c['args']); r = []
+        elif name == 'potential_tree':
+            MI, _ = thermo.modules(core.REPO)
+            r = o_potential_tree(I, thermo.Compiled(MI, thermo.DecimalBackend()), c)
+        else:
+            r = CLAUSES[name](I, c)
+    except NoValue as e:
+        r = [V('no-value', '%s%r %s' % (e.fn, e.args_, e.why), c)]
     if r == 'band': r = []
     txt = '; '.join(v['what'] for v in r) or 'clause %s holds at %s' % (name, {k: v for k, v in c.items() if k != 'clause'})
     return bool(r), txt
